@@ -6,7 +6,7 @@ GROUP = dict(
     spec='spec.h',
     aliases=[(V, 'Vec'), (AL, 'Alloc'), ('babylon_vf::', '')],
     extern_re=[r'MonotonicAllocator<long.*>::(allocate|construct|destroy)$', r'BasicMonotonicAllocator<long.*>::(allocate|construct|destroy)$'],
-    roots=[V + '::reserve', V + '::clear', V + '::emplace_back', V + '::pop_back', V + '::resize', V + '::erase', V + '::emplace', V + '::prepare_for_insert', V + '::swap'],
+    roots=[V + '::reserve', V + '::clear', V + '::emplace_back', V + '::pop_back', V + '::resize', V + '::erase', V + '::emplace', V + '::prepare_for_insert', V + '::swap', V + '::insert', V + '::assign'],
     # only the defaulted default constructor of the allocator depends on it (libstdc++ std::string quirk); the vector functions under contract never default-construct an allocator
     reviewed_compiler_conditionals=['src/babylon/reusable/allocator.h:#if __GLIBCXX__ && (__clang__ || !_GLIBCXX_USE_CXX11_ABI)'],
     assumptions=['MonotonicAllocator::allocate returns a fresh block of n elements; construct stores the value (value-initialisation stores 0); destroy of a long does nothing (contract stubs)',
@@ -20,6 +20,8 @@ GROUP = dict(
         dict(id='C12.erase', enforce='Vec_erase__i64P_i64P', loops=True, backend='cadical'),
         dict(id='C12.prepare_for_insert', enforce='Vec_prepare_for_insert', loops=True, backend='cadical', timeout=600),
         dict(id='C12.emplace', enforce='Vec_emplace__longRef_void', loops=True, backend='cadical', timeout=600),
+        dict(id='C12.resize.value', enforce='Vec_resize__long', loops=True, backend='cadical', covers=['a1 > 5 && g_k < a1 && g_k > 2']),
+        dict(id='C12.insert.n', enforce='Vec_insert__long', loops=True, backend='cadical', timeout=600, covers=['a2 > 3']),
         dict(id='C12.swap', enforce='Vec_swap', backend='cadical'),
     ],
 )
